@@ -43,6 +43,13 @@ def queries():
             quick = (b == a) or (b == (a + 1) % 21) or (n.startswith(m) or m.startswith(n))
             qs.append(Query(f'svf_parse2_{a:02d}_{b:02d}', 'harness', USV.unit_svf, 'h_svf_parse2', defines=da + [f'H_SVF_NAME_B="{m}"', f'H_SVF_BIT_B={b}'],
                             tier='quick' if quick else 'thorough', bounded='flag lists of at most two items (the parser loop has no invariant proof)', **SV))
+    # the parser loop as a loop contract (init / one arbitrary iteration / exit): lists of every length
+    FL = ['btcdeb.cpp: svf_parse_flags (loop cut into condition, body, exit by R-LOOPCUT)']
+    for h in ('step', 'init', 'exit'):
+        qs.append(Query(f'svf_loop_{h}', 'harness', USV.unit_svf_loop, f'h_svf_loop_{h}', unwind=130, timeout=900, object_bits=10, extra_cbmc=['--max-field-sensitivity-array-size', '200'], functions=FL))
+    for h in ('h_svf_string_standard',):
+        qs.append(Query(h[2:], 'harness', USV.unit_svf_string, h, unwind=66, timeout=1500, object_bits=10, extra_cbmc=['--max-field-sensitivity-array-size', '200'],
+                        functions=['btcdeb.cpp: svf_string (std::string as a rope of pieces)', 'btcdeb.cpp: svf table', 'policy/policy.h: STANDARD_SCRIPT_VERIFY_FLAGS']))
     # monotonicity lemma over the step spec, per opcode group
     NOSPLIT = {'push', 'badop', 'smallint', 'nopx', 'disabled_gate'}
     NUMERIC = {'unary', 'addsub', 'boolcmp', 'minmax', 'within', 'cltv', 'csv'}
@@ -57,23 +64,40 @@ def queries():
             if name == 'disabled_gate': defs.append('H_ALLOW_DISABLED=0')
             qs.append(Query(qn, 'harness', unit_mono, 'h_mono', defines=defs, unwind=max(cap + 2, 34), timeout=1500, object_bits=12,
                             bounded=f'element storage {cap} bytes', functions=['harness/spec_step.h: spec_step (lemma over the specification)'], backend='kissat' if name in NUMERIC else None))
+    # monotonicity of the signature opcodes: lemma over spec_sig.h with the cryptographic verdicts as flag-independent oracles
+    def msig(name, sel, n, cap, extra=(), tier='quick', timeout=3000):
+        return Query(name, 'harness', unit_mono, 'h_mono', defines=[f'H_OPSEL(op)=({sel})', f'H_N={n}', f'VERIF_STACK_W={max(n, 1)}', f'VERIF_ITEM_CAP={cap}', 'H_AN=0', 'H_MONO_SIG', 'H_MONO_FLAGGED'] + list(extra),
+                     unwind=max(cap + 2, 34), timeout=timeout, object_bits=12, tier=tier, backend='kissat', bounded=f'element storage {cap} bytes',
+                     functions=['harness/spec_sig.h: spec_sig_op / spec_eval_checksig (lemma over the specification)'])
+    qs.append(msig('mono_sig_checksig', 'op==0xac', 2, 80, ['VERIF_ORACLE_N=4']))
+    qs.append(msig('mono_sig_checksigverify', 'op==0xad', 2, 80, ['VERIF_ORACLE_N=4']))
+    qs.append(msig('mono_sig_checksigadd', 'op==0xba', 3, 40, ['VERIF_ORACLE_N=4']))
+    # multisig: the signature-less shapes (counts, dummy, NULLDUMMY, op-count charge); with signatures the two-run lemma does not
+    # finish on any back end (1 key + 1 signature: > 25 min MiniSat, kissat fails) - the matching loop's flag tests are the same
+    # spec_sig_encoding_error / spec_key_encoding_error calls the single-signature lemmas cover
+    for (nk, ns) in ((0, 0), (1, 0)):
+        n = nk + ns + 3
+        qs.append(msig(f'mono_sig_multisig_{nk}of{ns}', 'op==0xae||op==0xaf', n, 10, ['VERIF_ORACLE_N=12', 'H_BASE0', f'H_MS_KEYS={nk}', f'H_MS_SIGS={ns}']))
     return qs
 QUERIES = queries()
 # the lemma is about the spec; the code == spec obligations it rests on are re-checked in this run for the flag-sensitive opcodes
 DEP = [q for q in C01.QUERIES if q.tier == 'quick' and re.match(r'step_(cltv_b1|csv_b2|nopx|if_63|if_64|push|codesep_ab|unary_8b|unexecuted)$', q.name)]
+from props import C02
+DEP += [q for q in C02.QUERIES if q.tier == 'quick' and re.match(r'sig_(checksig_pre|checksigverify_pre|checksig_tapscript|checksigadd_tapscript|checkmultisig_1of0)$', q.name)]
 QUERIES += DEP
 META = {
  'level': 'proof',
  'trusted_base': TRUSTED,
  'assumptions': ASSUME_COMMON + [
-   "flag-list parser: proved per concrete name / name pair / malformation with a symbolic starting set (lists of <= 2 items: bounded); the table itself (21 names -> bits, standard set) is proved against a spec table written from Bitcoin Core's flag list",
-   "monotonicity is a lemma over harness/spec_step.h for non-signature opcodes; it transfers to the code through the C01 step obligations (the flag-sensitive ones are re-run here); signature-encoding flags and the P2SH/WITNESS session phases are outside this lemma",
+   "flag-list parser, lists of every length: loop contract on the real loop of svf_parse_flags (R-LOOPCUT: initialisation / one iteration from an arbitrary state satisfying the invariant / exit are three discharged obligations sets; the induction over iterations - the Hoare loop rule - is the one step not checked by CBMC); inside it svf_get_flag is its contract (arbitrary result for the exact item name), whose content - 21 names -> bits, unknown names -> 0 - is proved by svf_table / svf_unknown (unknown names of <= 11 characters: bounded)",
+   "end-to-end cross-check with the real svf_get_flag: per concrete name / name pair / malformation with a symbolic starting set (lists of <= 2 items)",
+   "monotonicity is a lemma over harness/spec_step.h and harness/spec_sig.h (signature opcodes: cryptographic verdicts as flag-independent oracles shared by both runs; multisig only without signatures); it transfers to the code through the C01 / C02 step obligations (the flag-sensitive ones are re-run here); the P2SH/WITNESS/CLEANSTACK session phases are outside this lemma",
  ],
  'explanation': 'contracts on svf_get_flag/svf_parse_flags sliced from btcdeb.cpp; lemma "A subset B and success under B implies success with the same post-state under A" proved by CBMC over the executable step specification per opcode group',
 }
 MANIFEST = {
- 'text': 'Flag table: each of the 21 names resolves to exactly its flag, unknown names to none, the standard set is the prescribed one. Parser: for every name and ordered name pair, both signs and any starting set, the result is the in-order fold of set/clear; malformed lists (missing sign, unknown name, empty item) never return a flag set. Monotonicity: for every non-signature operation, state and flag sets A subset of B, success under B implies success with the identical post-state under A (lemma over the step specification, transferred to the code by the C01 step contracts re-checked in the same run).',
- 'note': 'Parser lists of more than two items and symbolic names are not covered (bounded). Flags consumed by signature opcodes (DERSIG, LOW_S, STRICTENC, NULLFAIL, NULLDUMMY, ...) and by the session phases (P2SH, WITNESS, CLEANSTACK) are outside the monotonicity lemma.',
- 'technique': 'CBMC assume/assert contracts on the sliced flag parser with spec table; self-composition lemma over the executable step specification; C01 step contracts as the code==spec link',
+ 'text': 'Flag table: each of the 21 names resolves to exactly its flag, unknown names to none, the standard set is the prescribed one. Parser, lists of every length (loop contract on the real loop): each item is looked up exactly once under exactly its name, +NAME sets exactly that flag, -NAME clears exactly it, nothing else changes, and a missing sign, unknown name, empty or over-long item never returns a flag set; cross-checked end to end for every name and ordered name pair. Monotonicity: for every operation including the signature opcodes, state and flag sets A subset of B, success under B implies success with the identical post-state under A (lemma over the step specification with cryptographic verdicts as oracles, transferred to the code by the C01 / C02 step contracts re-checked in the same run).',
+ 'note': 'The induction over loop iterations is the Hoare loop rule applied by hand (init / step / exit obligations are discharged by CBMC). Unknown-name rejection by the table is proved for names of at most 11 characters. Flags consumed by the session phases (P2SH, WITNESS, CLEANSTACK) and multisig with signatures are outside the monotonicity lemma.',
+ 'technique': 'CBMC assume/assert contracts on the sliced flag parser (loop contract: init/step/exit of the real loop body) with spec table; self-composition lemma over the executable step and signature specification; C01/C02 step contracts as the code==spec link',
  'design_ref': 'DESIGN.md 6 (C09)',
 }
